@@ -68,6 +68,12 @@ check("C05", "exploration", "bench+rfc_response",
       "Trusted: vlib/rfc_request.py and vlib/rfc_response.py; fault injection is limited to the four client endings; inputs needing two or more mutations are outside the bound (thorough adds reset-after-read on all mutations).",
       "DESIGN.md section 3, C05")
 
+check("C19", "exploration", "bench+rfc_response",
+      "exhaustive products through the real worker handle() with the real Logger: (request head x non-failing application program x worker config) for record count and truthfulness, (hostile string x client-controlled place x access-log atom bare/quoted x worker) for line integrity, (C01 reject corpus alone / after a valid request) for rejected requests",
+      "92k truth cells: exactly one record per completed application call, its status and byte atoms equal to what the strict response reader decoded from the wire (all write paths incl. sendfile, HEAD, 204, Content-Length cut, iterables whose close() raises), request line attributable one-to-one and in order; 13.8k hostile cells (12 hostile strings in raw/percent-encoded target, Referer, User-Agent, X-*, basic-auth user, method; 55 formats): no CR/LF in any record, quoted atoms stay closed; 8.4k rejected-stream cells: at most one record per rejected request and only for request lines actually sent.",
+      "Trusted: the Capture logging handler sees what a file handler would write; only CR and LF count as line breaks; applications that raise are not judged.",
+      "DESIGN.md section 3, C19")
+
 ALL = ["C%02d" % i for i in range(1, 21)]
 for pid in ALL:
     if pid not in CHECKS:
